@@ -167,6 +167,9 @@ def r3_frame(repo, report):
                 if cname in repo.classes and repo.is_subclass(cname, "SingleEndModifier"):
                     pre.add(cname)
     report.floor("C17.R3", "pre-adapter modifier classes", len(pre), 3)
+    rc_possible = any("ReverseComplementer(" in s_.key for _, _, _, _, s_ in m.slots("modifiers"))
+    flips = any(isinstance(n, ast.If) and f"{I}.is_rc" in src(n.test) and any(isinstance(x, ast.Call) and isinstance(x.func, ast.Attribute) and x.func.attr == "reverse_complement" for x in ast.walk(n)) for n in ast.walk(fn)) or \
+        any(isinstance(n, ast.IfExp) and f"{I}.is_rc" in src(n.test) for n in ast.walk(fn))
     for cname in sorted(pre):
         c2, call = repo.need_method(cname, "__call__")
         rp = params(call)[1]
@@ -176,6 +179,17 @@ def r3_frame(repo, report):
                 lo = n.value.slice.lower
                 if lo is not None and not (isinstance(lo, ast.Constant) and lo.value in (0, None)):
                     prefix.append(src(n.value))
+        # under --revcomp the kept orientation may be the reverse complement: the writer reverse-complements
+        # info.original_read, so a SUFFIX removed before matching becomes a prefix of the frame the coordinates refer to
+        suffix = []
+        for n in walk_no_nested(call):
+            if isinstance(n, ast.Return) and isinstance(n.value, ast.Subscript) and chain(n.value.value) == rp and isinstance(n.value.slice, ast.Slice) and n.value.slice.upper is not None:
+                suffix.append(src(n.value))
+        if suffix and rc_possible:
+            ok_s = not (uses_original and flips) or bool(compens)
+            report.ob("C17.R3", f"{cname} removes a suffix before adapter matching under --revcomp", ok_s, facts={"suffix_removing_returns": suffix, "writer": "reverse-complements info.original_read when info.is_rc" if flips else "does not flip", "writer_compensation": compens},
+                      expected="the info writer slices the record the match coordinates refer to", loc=repo.loc(call), fact_key="suffix-before-match-revcomp",
+                      why="" if ok_s else f"{cname} returns {suffix[0]} before adapter trimming; with --revcomp and a read kept in reverse-complemented orientation the removed 3' piece is the START of the reverse-complemented original read to which InfoFileWriter applies the match coordinates (--revcomp -u -3 -a ADAPTER: columns 5-7 are shifted by 3)")
         if not prefix:
             report.ob("C17.R3", f"{cname} keeps the 5' end", True, facts={"returns": [src(n.value) for n in walk_no_nested(call) if isinstance(n, ast.Return) and n.value is not None]}, expected="no prefix removed before adapter matching", loc=repo.loc(call))
             continue
